@@ -32,10 +32,20 @@ Fixpoint kinds_eqb (a b : list N) : bool :=
   | _, _ => false
   end.
 
+(* model commitment vs observed one.  The height-0 commitments are made by the
+   test fixture (CreateTestChannels), not by the state machine under test, and
+   their transactions carry the pre-fee balances: outs / n_out are not compared
+   for them. *)
+Definition ocommit_eqb (m o : commit) : bool :=
+  if c_h o =? 0 then
+    commit_eqb m (mkCommit (c_owner o) (c_h o) (c_nA o) (c_nB o) (c_balA o) (c_balB o)
+                           (c_fee o) (c_rate o) (c_htlcs o) (c_outs m) (c_nout m))
+  else commit_eqb m o.
+
 Definition opt_commit_eqb (a b : option commit) : bool :=
   match a, b with
   | None, None => true
-  | Some x, Some y => commit_eqb x y
+  | Some x, Some y => ocommit_eqb x y
   | _, _ => false
   end.
 
@@ -48,9 +58,9 @@ Definition res_eqb (a b : res) : bool :=
 
 (* first differing field of a party (0 = none) *)
 Definition diff_party (x : party) (o : obs) : N :=
-  if negb (commit_eqb (lTail x) (o_ltail o)) then 2%N
+  if negb (ocommit_eqb (lTail x) (o_ltail o)) then 2%N
   else if negb (opt_commit_eqb (lTip x) (o_ltip o)) then 3%N
-  else if negb (commit_eqb (rTail x) (o_rtail o)) then 4%N
+  else if negb (ocommit_eqb (rTail x) (o_rtail o)) then 4%N
   else if negb (opt_commit_eqb (rTip x) (o_rtip o)) then 5%N
   else if negb (Nat.eqb (length (own x)) (o_own o)) then 6%N
   else if negb (Nat.eqb (length (peer x)) (o_peer o)) then 7%N
